@@ -196,6 +196,35 @@ func runC09x(c c09Case) *vstat.Failure {
 			if i := find(tp); i >= 0 {
 				model = append(model[:i], model[i+1:]...)
 			}
+		case "remove-oldest":
+			// the tuple with the oldest last-update goes; among equally old ones any
+			before := len(model)
+			m.RemoveOldestDatum()
+			if before == 0 {
+				break
+			}
+			oldest := model[0].timeNs
+			for _, e := range model {
+				if e.timeNs < oldest {
+					oldest = e.timeNs
+				}
+			}
+			gone := -1
+			for i, e := range model {
+				if m.FindLabelValueOrNil(e.labels) == nil {
+					if gone >= 0 {
+						return vstat.Failf("remove-oldest", "step %d: RemoveOldestDatum removed more than one tuple (%q and %q)", step, model[gone].labels, e.labels)
+					}
+					gone = i
+				}
+			}
+			if gone < 0 {
+				return vstat.Failf("remove-oldest", "step %d: RemoveOldestDatum removed nothing from %d tuples", step, before)
+			}
+			if model[gone].timeNs != oldest {
+				return vstat.Failf("remove-oldest", "step %d: RemoveOldestDatum removed %q (last update %d), the oldest last update is %d", step, model[gone].labels, model[gone].timeNs, oldest)
+			}
+			model = append(model[:gone], model[gone+1:]...)
 		case "expire":
 			err := m.ExpireDatum(time.Duration(op.Exp), tp...)
 			i := find(tp)
@@ -378,7 +407,7 @@ func TestC09(t *testing.T) {
 	st := vstat.New("C09", "operation histories (<= 40 steps) of get/set/inc/remove/expire/find/enumerate/JSON plus wrong-length variants over a universe of 5 tuples, for every kind x value type and key arity 0-3, compared step by step with an insertion-ordered map model; non-trivial = history of >= 6 steps with a remove of a present tuple followed by a create; distinct by the whole history")
 	st.Assumptions = []string{"tuples avoid the separator/escape alphabet of C08 so the two properties do not mask each other", "a fresh datum is stamped with the wall clock (bracketed)"}
 	st.Run(t, c09RunRaw, func() {
-		opNames := []string{"get", "get", "set", "set", "set", "inc", "remove", "remove", "expire", "find", "emit", "json", "wl-get", "wl-remove", "wl-expire", "wl-find"}
+		opNames := []string{"get", "get", "set", "set", "set", "inc", "remove", "remove", "remove-oldest", "expire", "find", "emit", "json", "wl-get", "wl-remove", "wl-expire", "wl-find"}
 		st.Check(t, func(rt *rapid.T) {
 			var c c09Case
 			defer st.Guard(func() any { return c })
